@@ -15,9 +15,6 @@ import (
 
 const zzNumRespShapes = 12
 
-func zzRespHdr() *RpcHeader {
-	return &RpcHeader{Method: "/" + zzSvcName + "/X", Source: "srv", Destination: "cli"}
-}
 
 // zzResponse builds a response-side envelope; bodies carry value v.
 func zzResponse(shape int, id uint64, v byte) *Rpc {
